@@ -491,6 +491,8 @@ def gen_case(ctx, idx):
             if big:
                 cols, rows = min(cols, 30), min(rows, H + 2 if rng.random() < 0.1 else 6)
             rows = min(rows, 297)
+            if rng.random() < 0.06:
+                rows = rng.choice([297, 298, 300])      # rows beyond the 297 addressable ones are printed as blanks: they still move the cursor
             image = rng.choice([1, 77, 0x123456, 0x05000001, rng.randrange(1, 2**32)])
             if rng.random() < 0.04:
                 image = rng.choice([None, 0])
@@ -652,7 +654,11 @@ def check_case(ctx, model_reply, case, recs, cov, idx):
                           "what": f"after {o['op']} the terminal object believes the cursor is at {tr}, the terminal's cursor is at {rec['cursor']} "
                                   f"({case['W']}x{case['H']} screen, op #{i})",
                           "case": dict(here, kind="history")}
-        # correspondence
+        # correspondence (the model's placeholder emission covers the 297 addressable rows: a put taller than that — its
+        # extra rows are printed as blanks — is judged by the oracle above only, and so is the rest of that history)
+        if any(h.get("op") == "put" and (h.get("rows") or 0) > 297 for h in hist):
+            cov.bump("beyond-the-model/rows>297")
+            continue
         diffs = []
         if hexs(rec["bytes"]) != m_out:
             diffs.append("bytes")
